@@ -719,6 +719,12 @@ impl World {
                     g.rec.ops.push(OpRec { seq: vsim::seq(), qidx, op: "jump".into(), detail: f.arg.to_string() });
                     g.rec.count("fault.jump");
                 }
+                // the engine's tick fires now, while interrupts are still open (timeout rules, redelivery)
+                "tick" => {
+                    if self.tick() {
+                        self.rec.lock().unwrap().rec.count("fault.tick_while_open");
+                    }
+                }
                 _ => {}
             }
         }
